@@ -1576,8 +1576,9 @@ theorem queueStep_regular (mode : Mode) (c : Nat) {fname : String} (fargs : List
         ((t.updConn c fun x => { x with inTx := true }).afterRegular ((t.updConn c fun x => { x with inTx := true }).conn c).db
           ((t.updConn c fun x => { x with inTx := true }).regularOut c sig body fargs false)).updConn c
             fun x => { x with inTx := false }) := by
-    unfold queueStep runInner
-    simp only [hfind, bind, StateT.bind, modifyConn_run, runWith_regular_run _ mode c sig fargs false hb _ hrf, pure,
+    unfold queueStep
+    simp only [hfind, runInner_regular_eq mode c sig fargs hb]
+    simp only [bind, StateT.bind, modifyConn_run, runWith_regular_run _ mode c sig fargs false hb _ hrf, pure,
       StateT.pure]
   refine ⟨FR.Ttl.ctxOf (t.updConn c fun x => { x with inTx := true }) c, rfl, ?_, ?_⟩
   · rw [hrun]
